@@ -21,6 +21,8 @@ EXTENDS Pair, Json
 CONSTANTS Ver, AutoPub, AutoPing, KA,
           SRM, CRM,            \* Receive Maximum announced by the server (CONNACK) / client (CONNECT); 99999 = none
           STAM, CTAM,          \* Topic Alias Maximum announced by the server / client; 99999 = none
+          SMPS, CMPS,          \* Maximum Packet Size announced by the server / client; 99999 = none
+          AutoMap,             \* both applications switch automatic topic-alias mapping on
           MaxOps, MaxLoss, MaxFire,
           Ops,                 \* subset of {"pub0","pub1","pub2","sub","unsub","ping"}
           Sides,               \* which applications publish: subset of {"c","s"}
@@ -54,10 +56,10 @@ Other(who) == IF who = "c" THEN "s" ELSE "c"
 ConnectPkt(clean) ==
   Sized([Pk("connect", Ver) EXCEPT !.clean = clean, !.ka = KA,
            !.sei = IF Ver = "v50" THEN 10 ELSE -1, !.rm = IF Ver = "v50" THEN V(CRM) ELSE -1,
-           !.tam = IF Ver = "v50" THEN V(CTAM) ELSE -1], 16)
+           !.tam = IF Ver = "v50" THEN V(CTAM) ELSE -1, !.mps = IF Ver = "v50" THEN V(CMPS) ELSE -1], 16)
 ConnackPkt(sp) ==
   Sized([Pk("connack", Ver) EXCEPT !.sp = sp, !.rm = IF Ver = "v50" THEN V(SRM) ELSE -1,
-           !.tam = IF Ver = "v50" THEN V(STAM) ELSE -1], 16)
+           !.tam = IF Ver = "v50" THEN V(STAM) ELSE -1, !.mps = IF Ver = "v50" THEN V(SMPS) ELSE -1], 16)
 
 (* duties the application of `who` incurs from the events it was handed *)
 DutiesOf(who, out) ==
@@ -183,8 +185,10 @@ Next == ClientConnect \/ Deliver \/ Duty \/ AppOp \/ PendSend \/ Lose \/ Lose2 \
 (* ---- initial state: two fresh objects with their options ---- *)
 SetupC == << [Call("new") EXCEPT !.role = "client", !.ver = Ver, !.idw = 16] >>
           \o (IF AutoPub THEN << [Call("opt") EXCEPT !.name = "auto_pub", !.flag = TRUE] >> ELSE <<>>)
+          \o (IF AutoMap THEN << [Call("opt") EXCEPT !.name = "auto_map", !.flag = TRUE] >> ELSE <<>>)
 SetupS == << [Call("new") EXCEPT !.role = "server", !.ver = Ver, !.idw = 16] >>
           \o (IF AutoPub THEN << [Call("opt") EXCEPT !.name = "auto_pub", !.flag = TRUE] >> ELSE <<>>)
+          \o (IF AutoMap THEN << [Call("opt") EXCEPT !.name = "auto_map", !.flag = TRUE] >> ELSE <<>>)
           \o (IF AutoPing THEN << [Call("opt") EXCEPT !.name = "auto_ping", !.flag = TRUE] >> ELSE <<>>)
 
 RECURSIVE RunFrom(_, _, _, _, _)
